@@ -52,6 +52,9 @@ def gen(rng, tier):
         for d, tag in magic.variants(rng, body):
             cases.append(Case("msg.hash " + hx(d), tags=("lib", tag)))
             cases.append(Case("cli.hash_message " + hx(d), tags=("cli", tag), runner="cli", meta={"via_file": core.input_route(rng)}))
+    for d in magic.ENCODED_TEXTS:
+        cases.append(Case("msg.hash " + hx(d), tags=("lib", "encoded-text")))
+        cases.append(Case("cli.hash_message " + hx(d), tags=("cli", "encoded-text"), runner="cli", meta={"via_file": core.input_route(rng)}))
     for n in (2, 100, 4096, 8192, 8193, 70000):
         for route in ("slow", "fifo"):
             cases.append(Case("cli.hash_message " + hx(bytes(rng.getrandbits(8) for _ in range(n))), tags=("cli", "pieces:" + route), runner="cli", meta={"via_file": route}))
